@@ -130,18 +130,31 @@ def replayer(ck, ob):
     verdict = 'solver-only'
     if plan is not None:
         driver, case, confirm = plan
+        cases = case if isinstance(case, list) else [case]
         rec['driver'] = driver
-        rec['case'] = case
-        out = run_case(driver, case)
-        rec['native_outcome'] = out
-        if 'error' in out and not out.get('hang'):
-            verdict = 'error'
-        else:
-            try:
-                verdict = 'confirmed' if confirm(out) else 'not-reproduced'
-            except Exception as e:  # noqa
-                verdict = 'error'
-                rec['confirm_error'] = str(e)
+        verdict = 'not-reproduced'
+        tried = []
+        for c in cases:
+            out = run_case(driver, c)
+            tried.append({'case': c, 'native_outcome': out})
+            if 'error' in out and not out.get('hang'):
+                v = 'error'
+            else:
+                try:
+                    v = 'confirmed' if confirm(out) else 'not-reproduced'
+                except Exception as e:  # noqa
+                    v = 'error'
+                    rec['confirm_error'] = str(e)
+            if v == 'confirmed':
+                verdict = v
+                rec['case'] = c
+                rec['native_outcome'] = out
+                break
+            if v == 'error' and verdict != 'confirmed':
+                verdict = 'error' if len(cases) == 1 else verdict
+        if verdict != 'confirmed':
+            rec['tried'] = tried[:8]
+            rec['case'] = cases[0]
     rec['verdict'] = verdict
     json.dump(rec, open(p, 'w'), indent=1, default=str)
     ck.replays.append({'site': ob.label, 'verdict': verdict, 'file': p})
@@ -151,7 +164,7 @@ def replayer(ck, ob):
 def main(argv):
     rec = json.load(open(argv[0]))
     print(json.dumps(rec, indent=1))
-    if rec.get('driver'):
+    if rec.get('driver') and rec.get('case'):
         out = run_case(rec['driver'], rec['case'])
         print('native outcome now:', json.dumps(out))
     return 0
